@@ -103,4 +103,17 @@ var props = map[string]Prop{
 			har("random", "./harness/c02", "TestC02Random", true, 40000, 1500000, 8, 16),
 		},
 	},
+	"C05": {
+		ID: "C05", Level: "exploration",
+		Rule: "programs/seqops compiled by the llgo under test (O0, O2, Oz, O2+nogc; thorough adds O1, O3, O0+nogc). Slices: rapid state machine of 1-30 steps over 8 slice registers of one element type (sizes 0, 1, 2, 3, 8, 24 bytes): make, literal, nil, append of k values, append of a window of another or the same register, the delete idiom append(s[:i], s[i+1:]...), append loops, copy (incl. self-overlap), 2- and 3-index reslicing up to capacity, clear, element store; lengths cross the growth thresholds (0..33, 255-257, 511-513, 1023-1025). After every step every register is dumped and compared with an explicit model (backing id, offset, len, cap; capacity chosen on reallocation is observed, only required >= len); the model runs against gc natively too and must agree with it. Non-trivial: history with both a reallocating and an in-place append, or an overlapping copy/append, or a zero-size element type. Strings: rapid byte strings built from valid, overlong, surrogate, truncated and out-of-range sequences x 16 operations, compared byte for byte with native execution; non-trivial = operand with a byte >= 0x80.",
+		Assumptions: []string{
+			"the slice model is the Go spec's description of append/copy/slice expressions; capacity growth is not asserted",
+			"string operations: gc's own string runtime (same functions executed in-process) is the reference",
+		},
+		Jobs: []Job{
+			har("modelselftest", "./harness/c05", "TestC05ModelSelfTest", true, 3000, 200000, 1, 4),
+			har("slices", "./harness/c05", "TestC05Slices", true, 1200, 60000, 8, 16),
+			har("strings", "./harness/c05", "TestC05Strings", true, 20000, 800000, 4, 8),
+		},
+	},
 }
